@@ -255,7 +255,7 @@ func main() {
 		r.Rule("rounds of P processes x G goroutines released together, each doing N acquisitions on 2-3 lock paths (regular files; every other round also one private character device or FIFO, whose truncation by Create/Write fails and is tolerated) through a random entry point (OpenFile O_RDONLY/O_WRONLY/O_RDWR, Open, Create, Edit, Mutex.Lock, inside Transform's function, inside the reader handed to Write), dwelling 0-300us inside, with seeded delays at the lockedfile.open/close hooks. Evaluations = acquisitions; distinct non-trivial = acquisitions that found a conflicting holder inside when they were invoked (had to wait), plus rounds.")
 		r.Assume("flock semantics of the host kernel; the occupancy word is updated only between an acquiring call's return and the releasing call's invocation")
 		base := vlib.Scratch()
-		rounds := r.Pick(6, 60)
+		rounds := r.Pick(6, 28)
 		rng := r.Rand("rounds")
 		racePrefix := filepath.Join(base, "race")
 		tot := result{Acq: map[string]int64{}, Hook: map[string]int64{}}
